@@ -10,7 +10,8 @@ it observes when it runs alone.  WHICH call sites of the real code are wrapped (
 `sandboxed` flag of each task, the owners named by `withOwner`) is an input of the model: it is
 MODELLED, NOT VERIFIED here.  That is what the correspondence harness (harness/hx-c20) checks on the
 real `build_response` / `Suspend` / `Suspense` / `Resource` / `Provider` / `For` call sites — and where
-it found two sites that are not wrapped (`C20_unwrapped_leaks_witness`, known findings F-C20-1/2).
+it found sites that were not wrapped (`C20_unwrapped_leaks_witness` has their shape; findings F-C20-1..4,
+repaired in /repo by hooks/fix-c20-1/3/4; `Driver/C20.lean` keeps the pre-repair site table with regression `#guard`s).
 
 Quantifiers: all worlds (owner forests of any number of requests, global or per-request arenas), all
 task programs (`List Step`, spawn tables), all interleavings (`List Nat`).
@@ -818,7 +819,8 @@ def leakWorld : World := { owners := [⟨0, none, 0⟩, ⟨1, none, 1⟩], progs
 /-- task 0 = request B's handler doing `Owner::new_root` (sets OWNER, never restored);
 task 1 = request A's response stream rendering, after an await, a leaf that calls `use_context`:
 it is `Sandboxed` (own arena) but NOT inside a `ScopedFuture`/`OwnedView` — the shape of the real
-`Suspend::to_html_async_with_buf` outside `Suspense` (known finding F-C20-1) -/
+`Suspend::to_html_async_with_buf` outside `Suspense` BEFORE the repair hooks/fix-c20-1 (finding F-C20-1; the
+repaired code corresponds to `leakState true`) -/
 def leakState (lateWrapped : Bool) : State :=
   { amb := { owner := some 0, arena := some 0 }
     mem := { ctx := [⟨0, 100⟩, ⟨1, 200⟩] }
